@@ -17,25 +17,25 @@ package jsonpath
 //@ spec pyHiN(s *syntaxSliceNegativeStepSubscript, n int) int = s.end.isOmitted ? 0 - 1 : pyClampN(s.end.number, n)
 
 //@ func (*syntaxSlicePositiveStepSubscript).getNormalizedValue
-//@   props C11 C03 C01 C04 C05 C06 C20
+//@   props C11 C03 C01 C08 C04 C05 C06 C20
 //@   requires srcLength >= 0
 //@   ensures value: ret == pyClampP(value, srcLength)
 //@   pure
 
 //@ func (*syntaxSlicePositiveStepSubscript).getLoopStart
-//@   props C11 C03 C01 C04 C05 C06 C20
+//@   props C11 C03 C01 C08 C04 C05 C06 C20
 //@   requires srcLength >= 0 && s != nil && s.start != nil
 //@   ensures value: ret == pyLoP(s, srcLength)
 //@   pure
 
 //@ func (*syntaxSlicePositiveStepSubscript).getLoopEnd
-//@   props C11 C03 C01 C04 C05 C06 C20
+//@   props C11 C03 C01 C08 C04 C05 C06 C20
 //@   requires srcLength >= 0 && s != nil && s.end != nil
 //@   ensures value: ret == pyHiP(s, srcLength)
 //@   pure
 
 //@ func (*syntaxSlicePositiveStepSubscript).getIndexes
-//@   props C11 C03 C01 C04 C05 C06 C20
+//@   props C11 C03 C01 C08 C04 C05 C06 C20
 //@   implements syntaxSubscript.getIndexes
 //@   unfold WFsub(this) ==> WFposDef(s)
 //@   ensures empty: (s.step.number <= 0 || pyLoP(s, srcLength) >= pyHiP(s, srcLength)) ==> len(ret) == 0
@@ -52,25 +52,25 @@ package jsonpath
 //@   loop 1 decreases loopEnd - i
 
 //@ func (*syntaxSliceNegativeStepSubscript).getNormalizedValue
-//@   props C11 C03 C01 C04 C05 C06 C20
+//@   props C11 C03 C01 C08 C04 C05 C06 C20
 //@   requires srcLength >= 0
 //@   ensures value: ret == pyClampN(value, srcLength)
 //@   pure
 
 //@ func (*syntaxSliceNegativeStepSubscript).getLoopStart
-//@   props C11 C03 C01 C04 C05 C06 C20
+//@   props C11 C03 C01 C08 C04 C05 C06 C20
 //@   requires srcLength >= 0 && s != nil && s.start != nil
 //@   ensures value: ret == pyLoN(s, srcLength)
 //@   pure
 
 //@ func (*syntaxSliceNegativeStepSubscript).getLoopEnd
-//@   props C11 C03 C01 C04 C05 C06 C20
+//@   props C11 C03 C01 C08 C04 C05 C06 C20
 //@   requires srcLength >= 0 && s != nil && s.end != nil
 //@   ensures value: ret == pyHiN(s, srcLength)
 //@   pure
 
 //@ func (*syntaxSliceNegativeStepSubscript).getIndexes
-//@   props C11 C03 C01 C04 C05 C06 C20
+//@   props C11 C03 C01 C08 C04 C05 C06 C20
 //@   implements syntaxSubscript.getIndexes
 //@   unfold WFsub(this) ==> WFnegDef(s)
 //@   ensures empty: (s.step.number >= 0 || pyLoN(s, srcLength) <= pyHiN(s, srcLength)) ==> len(ret) == 0
@@ -87,7 +87,7 @@ package jsonpath
 //@   loop 1 decreases i - loopEnd
 
 //@ func (*syntaxIndexSubscript).getIndexes
-//@   props C11 C03 C01 C04 C05 C06 C20
+//@   props C11 C03 C01 C08 C04 C05 C06 C20
 //@   implements syntaxSubscript.getIndexes
 //@   unfold WFsub(this) ==> WFindexDef(i)
 //@   ensures front: (0 <= i.number && i.number < srcLength) ==> len(ret) == 1 && ret[0] == i.number
@@ -95,7 +95,7 @@ package jsonpath
 //@   ensures none: (i.number >= srcLength || i.number + srcLength < 0) ==> len(ret) == 0
 
 //@ func (*syntaxWildcardSubscript).getIndexes
-//@   props C11 C03 C01 C04 C05 C06 C20
+//@   props C11 C03 C01 C08 C04 C05 C06 C20
 //@   implements syntaxSubscript.getIndexes
 //@   ensures all: len(ret) == srcLength && forall k :: 0 <= k && k < srcLength ==> ret[k] == k
 //@   loop 1 invariant 0 <= index && index <= srcLength
@@ -155,6 +155,7 @@ package jsonpath
 //@ smt (declare-fun afRes (Int (Array Int Val) Int Int) Val)
 //@ smt (declare-fun afErr (Int (Array Int Val) Int Int) Val)
 //@ smt (declare-fun vgroup (Val) Bool)
+//@ smt (assert (forall ((n Val) (r Val) (c Val)) (! (=> (RLok n) (and (= (Sel n r c) (> (RLn n r c) 0)) (=> (> (RLn n r c) 0) (= (First n r c) (RLv n r c 0))))) :pattern ((Sel n r c)) :pattern ((First n r c)))))
 
 //@ spec rtOK(r *errorBasicRuntime) bool = r != nil && wf(r) && r.node != nil && len(r.node.connectedText) >= 1
 //@ spec errLen(e errorRuntime) int = len(errNode(e).connectedText)
@@ -385,9 +386,10 @@ package jsonpath
 //@   include retrieveFrame
 //@   include resultList
 //@   ensures single: chainSingle(this) ==> len(container.result) <= old(len(container.result)) + 1
-// Assumed, not proved (it is the functional specification of retrieval, C01): on an empty buffer, success
-// and the first result are functions Sel/First of (node, root, current).
-//@   assume old(len(container.result)) == 0 ==> ((ret == nil) <==> Sel(this, root, current)) && (ret == nil ==> elemAt(container.result, 0) == First(this, root, current))
+// On an empty buffer, success and the first result are functions Sel/First of (node, root, current).  For chains with a
+// result-list specification (RLok) they are defined from it (axiom selFirst) and this follows from count/values/fails;
+// for the others (recursive descent, aggregate functions, accessor mode) it is assumed (determinism of retrieval).
+//@   assume !RLok(this) && old(len(container.result)) == 0 ==> ((ret == nil) <==> Sel(this, root, current)) && (ret == nil ==> elemAt(container.result, 0) == First(this, root, current))
 //@   decreases 3*height(this) + 2
 
 //@ interface syntaxNode.isValueGroup
@@ -409,7 +411,7 @@ package jsonpath
 //@   ensures escaped(arg0) && extVal(ret0) && ret0 == afRes(fn, old(A_Val[arr(arg0)]), off(arg0), len(arg0)) && ret1 == afErr(fn, old(A_Val[arr(arg0)]), off(arg0), len(arg0))
 
 //@ func (*syntaxBasicNode).retrieveAnyValueNext
-//@   props C03 C04 C05 C06 C20 C12 C13 C16 C01
+//@   props C03 C04 C05 C06 C20 C12 C13 C16 C01 C08
 //@   decreases 3*hgt(i)
 //@   requires WFbasic(i) && extVal(nextSrc)
 //@   include retrieveFrame
@@ -421,7 +423,7 @@ package jsonpath
 //@   ensures leafacc: i.next == nil && i.accessorMode ==> ret == nil && len(container.result) == old(len(container.result)) + 1 && isType(elemAt(container.result, old(len(container.result))), Accessor) && asType(elemAt(container.result, old(len(container.result))), Accessor).Set == nil && cloFn(asType(elemAt(container.result, old(len(container.result))), Accessor).Get) == fnconst("(*syntaxBasicNode).retrieveAnyValueNext$1") && C_Val[cloBind(asType(elemAt(container.result, old(len(container.result))), Accessor).Get, 0)] == nextSrc
 
 //@ func (*syntaxBasicNode).retrieveMapNext
-//@   props C03 C04 C05 C06 C20 C12 C13 C16 C01
+//@   props C03 C04 C05 C06 C20 C12 C13 C16 C01 C08
 //@   decreases 3*hgt(i)
 //@   requires WFbasic(i) && errRT(i)
 //@   include retrieveFrame
@@ -435,7 +437,7 @@ package jsonpath
 //@   ensures leafacc: currentMap != nil && has(currentMap, key) && i.next == nil && i.accessorMode ==> ret == nil && len(container.result) == old(len(container.result)) + 1 && isType(elemAt(container.result, old(len(container.result))), Accessor) && accMapLoc(asType(elemAt(container.result, old(len(container.result))), Accessor), currentMap, key)
 
 //@ func (*syntaxBasicNode).retrieveListNext
-//@   props C03 C04 C05 C06 C20 C12 C13 C16 C01
+//@   props C03 C04 C05 C06 C20 C12 C13 C16 C01 C08
 //@   decreases 3*hgt(i)
 //@   requires WFbasic(i) && 0 <= index && index < len(currentList) && docArr(currentList)
 //@   include retrieveFrame
@@ -495,24 +497,24 @@ package jsonpath
 //@   pure
 
 //@ func (*syntaxRootIdentifier).retrieve
-//@   props C01 C03 C04 C05 C06 C20
+//@   props C01 C08 C03 C04 C05 C06 C20
 //@   implements syntaxNode.retrieve
 //@   unfold WFnode(this) ==> WFrootDef(i)
 
 //@ func (*syntaxCurrentRootIdentifier).retrieve
-//@   props C01 C03 C04 C05 C06 C20
+//@   props C01 C08 C03 C04 C05 C06 C20
 //@   implements syntaxNode.retrieve
 //@   unfold WFnode(this) ==> WFcurrentDef(i)
 
 //@ func (*syntaxChildSingleIdentifier).retrieve
-//@   props C01 C03 C04 C05 C06 C20 C15 C16
+//@   props C01 C08 C03 C04 C05 C06 C20 C15 C16
 //@   implements syntaxNode.retrieve
 //@   unfold WFnode(this) ==> WFsingleDef(i)
 //@   ensures mismatch: !isType(current, map[string]interface{}) ==> mismatch(ret, i.errorRuntime, "object", current) && len(container.result) == old(len(container.result))
 //@   before retrieveMapNext#1 assert key: arg3 == i.identifier && arg2 == asType(current, map[string]interface{})
 
 //@ func (*syntaxFilterFunction).retrieve
-//@   props C01 C03 C04 C05 C06 C20 C14
+//@   props C01 C08 C03 C04 C05 C06 C20 C14
 //@   implements syntaxNode.retrieve
 //@   unfold WFnode(this) ==> WFffuncDef(f)
 //@   before func#1 assert arg: arg0 == current
@@ -547,13 +549,13 @@ package jsonpath
 //@   assume len(ret) == IXn(this, srcLength) && (forall k {ret[k]} {IXv(this, srcLength, k)} :: 0 <= k && k < len(ret) ==> ret[k] == IXv(this, srcLength, k))
 
 //@ func (*syntaxChildWildcardIdentifier).retrieve
-//@   props C01 C03 C04 C05 C06 C20 C15
+//@   props C01 C08 C03 C04 C05 C06 C20 C15
 //@   implements syntaxNode.retrieve
 //@   unfold WFnode(this) ==> WFwildcardDef(i)
 //@   ensures mismatch: !isType(current, map[string]interface{}) && !isType(current, []interface{}) ==> mismatch(ret, i.errorRuntime, "object/array", current) && len(container.result) == old(len(container.result))
 
 //@ func (*syntaxChildWildcardIdentifier).retrieveMap
-//@   props C01 C03 C04 C05 C06 C07 C20
+//@   props C01 C08 C03 C04 C05 C06 C07 C20
 //@   requires i != nil && WFbasic(i.syntaxBasicNode) && errRT(i.syntaxBasicNode)
 //@   include retrieveFrame
 //@   decreases 3*hgt(i.syntaxBasicNode) + 1
@@ -568,7 +570,7 @@ package jsonpath
 
 //@ spec sumLof(b *syntaxBasicNode, r any, s []interface{}, j int) int = sumL(b, r, A_Val[arr(s)], off(s), j)
 //@ func (*syntaxChildWildcardIdentifier).retrieveList
-//@   props C01 C03 C04 C05 C06 C07 C20
+//@   props C01 C08 C03 C04 C05 C06 C07 C20
 //@   requires i != nil && WFbasic(i.syntaxBasicNode) && errRT(i.syntaxBasicNode) && docArr(srcList) && wf(srcList)
 //@   include retrieveFrame
 //@   decreases 3*hgt(i.syntaxBasicNode) + 1
@@ -581,14 +583,14 @@ package jsonpath
 //@   loop 1 invariant mono: Kok(i.syntaxBasicNode) ==> (forall t {sumLof(i.syntaxBasicNode, root, srcList, t)} :: 0 <= t && t <= rangeindex1 ==> 0 <= sumLof(i.syntaxBasicNode, root, srcList, t) && sumLof(i.syntaxBasicNode, root, srcList, t) + Kn(i.syntaxBasicNode, root, A_Val[arr(srcList)][idxOf(off(srcList), t)]) <= len(container.result) - old(len(container.result)))
 
 //@ func (*syntaxChildMultiIdentifier).retrieve
-//@   props C01 C03 C04 C05 C06 C20 C15
+//@   props C01 C08 C03 C04 C05 C06 C20 C15
 //@   implements syntaxNode.retrieve
 //@   unfold WFnode(this) ==> WFmultiDef(i)
 //@   ensures mismatch: !isType(current, map[string]interface{}) && !(i.isAllWildcard && isType(current, []interface{})) ==> mismatch(ret, i.errorRuntime, "object", current) && len(container.result) == old(len(container.result))
 
 //@ spec identAt(i *syntaxChildMultiIdentifier, t int) any = A_Val[arr(i.identifiers)][idxOf(off(i.identifiers), t)]
 //@ func (*syntaxChildMultiIdentifier).retrieveMap
-//@   props C01 C03 C04 C05 C06 C07 C20
+//@   props C01 C08 C03 C04 C05 C06 C07 C20
 //@   requires WFmultiDef(i)
 //@   include retrieveFrame
 //@   decreases 3*height(i) + 1
@@ -601,7 +603,7 @@ package jsonpath
 //@   loop 1 invariant mono: RLok(i) ==> (forall t {sumXof(root, srcMap, i.identifiers, t)} :: 0 <= t && t <= rangeindex1 ==> 0 <= sumXof(root, srcMap, i.identifiers, t) && sumXof(root, srcMap, i.identifiers, t) + RLn(identAt(i, t), root, srcMap) <= len(container.result) - old(len(container.result)))
 
 //@ func (*syntaxUnionQualifier).retrieve
-//@   props C01 C03 C04 C05 C06 C07 C11 C20 C15
+//@   props C01 C08 C03 C04 C05 C06 C07 C11 C20 C15
 //@   implements syntaxNode.retrieve
 //@   unfold WFnode(this) ==> WFunionDef(u)
 //@   ensures mismatch: !isType(current, []interface{}) ==> mismatch(ret, u.errorRuntime, "array", current) && len(container.result) == old(len(container.result))
@@ -944,14 +946,14 @@ package jsonpath
 //@   loop 1 invariant none: !hasValue ==> (forall j {elemAt(computedList, j)} :: 0 <= j && j <= rangeindex ==> elemAt(computedList, j) == emptyEntity)
 
 //@ func (*syntaxFilterQualifier).retrieve
-//@   props C01 C03 C04 C05 C06 C20 C15
+//@   props C01 C08 C03 C04 C05 C06 C20 C15
 //@   implements syntaxNode.retrieve
 //@   unfold WFnode(this) ==> WFfilterDef(f)
 //@   ensures mismatch: !isType(current, map[string]interface{}) && !isType(current, []interface{}) ==> mismatch(ret, f.errorRuntime, "object/array", current) && len(container.result) == old(len(container.result))
 
 //@ spec keysEnum(keys []string, m map[string]interface{}) bool = len(keys) == len(m) && (forall t {keys[t]} {skey(M_dom[m], t)} :: 0 <= t && t < len(keys) ==> keys[t] == skey(M_dom[m], t) && has(m, keys[t]))
 //@ func (*syntaxFilterQualifier).retrieveMap
-//@   props C01 C03 C04 C05 C06 C07 C20
+//@   props C01 C08 C03 C04 C05 C06 C07 C20
 //@   requires WFfilterDef(f)
 //@   include retrieveFrame
 //@   decreases 3*height(f) + 1
@@ -974,7 +976,7 @@ package jsonpath
 //@   loop 2 invariant mono: Kok(f.syntaxBasicNode) ==> (forall t {sumFMof(f.query, f.syntaxBasicNode, root, srcMap, t)} :: 0 <= t && t <= rangeindex2 ==> 0 <= sumFMof(f.query, f.syntaxBasicNode, root, srcMap, t) && sumFMof(f.query, f.syntaxBasicNode, root, srcMap, t) + (RHmap(f.query, root, srcMap, t) ? Kn(f.syntaxBasicNode, root, memAt(srcMap, t)) : 0) <= len(container.result) - old(len(container.result)))
 
 //@ func (*syntaxFilterQualifier).retrieveList
-//@   props C01 C03 C04 C05 C06 C07 C20
+//@   props C01 C08 C03 C04 C05 C06 C07 C20
 //@   requires WFfilterDef(f) && docArr(srcList) && wf(srcList)
 //@   include retrieveFrame
 //@   decreases 3*height(f) + 1
@@ -988,7 +990,7 @@ package jsonpath
 //@   loop 1 invariant mono: Kok(f.syntaxBasicNode) ==> (forall t {sumFof(f.query, f.syntaxBasicNode, root, srcList, t)} :: 0 <= t && t <= rangeindex1 ==> 0 <= sumFof(f.query, f.syntaxBasicNode, root, srcList, t) && sumFof(f.query, f.syntaxBasicNode, root, srcList, t) + (RHin(f.query, root, srcList, t) ? Kn(f.syntaxBasicNode, root, A_Val[arr(srcList)][idxOf(off(srcList), t)]) : 0) <= len(container.result) - old(len(container.result)))
 
 //@ func Parse$2
-//@   props C01 C03 C04 C05 C06 C20
+//@   props C01 C08 C03 C04 C05 C06 C20
 //@   requires root != nil && WFnode(root) && extVal(src)
 // C01: the function Parse returns yields exactly the result list of the root node on (src, src), and fails exactly when it is empty
 //@   ensures exact: RLok(root) ==> ((ret1 == nil) <==> RLn(root, src, src) > 0) && (ret1 == nil ==> len(ret0) == RLn(root, src, src) && (forall i {RLv(root, src, src, i)} :: 0 <= i && i < RLn(root, src, src) ==> ret0[i] == RLv(root, src, src, i)))
